@@ -1614,13 +1614,7 @@ R SoPlexBase<R>::maxAbsNonzeroReal() const
 template <class R>
 R SoPlexBase<R>::coefReal(int row, int col) const
 {
-   if(_realLP->isScaled())
-   {
-      assert(_scaler);
-      return _scaler->getCoefUnscaled(*_realLP, row, col);
-   }
-   else
-      return colVectorRealInternal(col)[row];
+   return _realLP->coefUnscaled(row, col);
 }
 
 /// returns vector of row \p i, ignoring scaling
@@ -1637,14 +1631,7 @@ void SoPlexBase<R>::getRowVectorReal(int i, DSVectorBase<R>& row) const
 {
    assert(_realLP);
 
-   if(_realLP->isScaled())
-   {
-      assert(_scaler);
-      row.setMax(_realLP->rowVector(i).size());
-      _scaler->getRowUnscaled(*_realLP, i, row);
-   }
-   else
-      row = _realLP->rowVector(i);
+   _realLP->getRowVectorUnscaled(i, row);
 }
 
 
